@@ -253,7 +253,7 @@ def run_property(spec, tier, seed, replay=None, jobs=16):
         level = "other"
     ev = {"property_id": pid, "tier": tier, "seed": seed, "level": level, "coverage": cov,
           "assumptions": spec.get("assumptions", []), "wall_s": round(time.time() - t0, 2), "violations": viol_count}
-    if obligations == 0 and spec.get("functions") and not undecided:
+    if obligations == 0 and spec.get("functions") and not undecided and not replay:
         lines.append("CHECKER-FAILURE property=%s zero obligations generated" % pid)
         status = status or 3
     os.makedirs(os.path.join(OUT, "evidence"), exist_ok=True)
